@@ -299,17 +299,35 @@ func classifyCrash(log string) (kind, key, excerpt string) {
 	if strings.Contains(first, "test timed out") {
 		return "timeout", "", clip(tail, 12000)
 	}
-	// first non-harness vivid frame
+	// the crashing goroutine is the first stack in the dump: its innermost vivid frame decides whether this is
+	// a crash in vivid code (violation) or in the harness itself (error)
 	key = "unknown"
-	for _, m := range vividFrame.FindAllString(tail, -1) {
-		if strings.Contains(m, "verifrt") || strings.Contains(m, "TestVerif") || strings.Contains(m, "zz_verif") || strings.Contains(m, ".vf") || strings.Contains(m, ".Vf") {
+	firstStack := tail
+	if i := strings.Index(tail, "\ngoroutine "); i >= 0 {
+		rest := tail[i+1:]
+		if j := strings.Index(rest, "\n\n"); j >= 0 {
+			firstStack = rest[:j]
+		} else {
+			firstStack = rest
+		}
+	}
+	lines := strings.Split(firstStack, "\n")
+	for li, ln := range lines {
+		m := vividFrame.FindString(ln)
+		if m == "" || strings.HasPrefix(strings.TrimSpace(ln), "/") {
 			continue
 		}
-		m = strings.TrimPrefix(m, "github.com/kercylan98/vivid/")
-		if i := strings.Index(m, "("); i > 0 && !strings.Contains(m[:i], ".") {
-			// keep receiver form
+		fileLine := ""
+		if li+1 < len(lines) {
+			fileLine = lines[li+1]
 		}
-		key = strings.TrimRight(m, "(")
+		harness := strings.Contains(fileLine, "zz_verif_") || strings.Contains(m, "verifrt") || strings.Contains(m, "TestVerif")
+		m = strings.TrimPrefix(m, "github.com/kercylan98/vivid/")
+		if harness {
+			key = "unknown" // crash inside harness code
+		} else {
+			key = strings.TrimRight(m, "(")
+		}
 		break
 	}
 	msg := first
